@@ -402,8 +402,15 @@ func (f *fileInst) apply() []byte {
 
 const simrtImport = "zzsimrt \"github.com/lavanet/lava/v5/zz_verif/simrt\""
 
+// srcMap: original path -> already rewritten copy (output of tools/maporder) to use as the source
+var srcMap = map[string]string{}
+
 func instrumentFile(path, rel, outDir string, total map[string]int) (string, error) {
-	src, err := os.ReadFile(path)
+	readFrom := path
+	if alt, ok := srcMap[path]; ok {
+		readFrom = alt
+	}
+	src, err := os.ReadFile(readFrom)
 	if err != nil {
 		return "", err
 	}
@@ -426,8 +433,10 @@ func instrumentFile(path, rel, outDir string, total map[string]int) (string, err
 	if len(fi.edits) == 0 {
 		return "", nil
 	}
-	// add the import right after the package clause
-	fi.insert(af.Name.End(), "\n\nimport "+simrtImport+"\n", 0)
+	// add the import right after the package clause (unless a previous pass already did)
+	if !strings.Contains(string(src), simrtImport) {
+		fi.insert(af.Name.End(), "\n\nimport "+simrtImport+"\n", 0)
+	}
 	out := fi.apply()
 	dst := filepath.Join(outDir, strings.ReplaceAll(rel, "/", "__"))
 	if err := os.WriteFile(dst, out, 0o644); err != nil {
@@ -442,7 +451,14 @@ func instrumentFile(path, rel, outDir string, total map[string]int) (string, err
 func main() {
 	outDir := flag.String("out", "", "output directory")
 	repo := flag.String("repo", "/repo", "repository root")
+	srcMapFile := flag.String("srcmap", "", "JSON map original path -> pre-rewritten copy to read instead")
 	flag.Parse()
+	if *srcMapFile != "" {
+		b, err := os.ReadFile(*srcMapFile)
+		if err == nil {
+			json.Unmarshal(b, &srcMap)
+		}
+	}
 	if *outDir == "" {
 		fmt.Fprintln(os.Stderr, "need -out")
 		os.Exit(2)
